@@ -75,7 +75,7 @@ WorldSpec gen_world(const std::string& prop, uint64_t run_seed, const GenOpts& o
         if (r.chance(alt)) w.scalar = S_FLOAT;
     }
     // ---- sizes ----
-    const int nmax = o.thorough ? 80 : 48;
+    const int nmax = o.thorough ? 64 : 48;
     if (w.family == F_SVD)
     {
         int a = 6 + (int) r.below(o.thorough ? 55 : 35), b = 6 + (int) r.below(o.thorough ? 55 : 35);
@@ -129,7 +129,9 @@ WorldSpec gen_world(const std::string& prop, uint64_t run_seed, const GenOpts& o
     if (w.mclass == M_BLOCKDIAG) w.nblock = 2 + (int) r.below((uint64_t) std::max(1, std::min(w.ncv - 1, w.n - 1) - 1));
     // the shift families factorize A - sigma*(I|B); keep A generic enough for a well-defined shift
     // ---- scale ----
-    const double smax = o.thorough ? 8 : 3;
+    // same scale range in both tiers: beyond 1e+-3 the absolute thresholds of the library (eps^(2/3) floor of the
+    // convergence test, breakdown thresholds) make the numeric clauses an input-dimension question
+    const double smax = 3;
     w.scale = r.chance(0.4) ? 1.0 : std::pow(10.0, r.real(-smax, smax));
     if (w.scalar == S_FLOAT) w.scale = r.chance(0.4) ? 1.0 : std::pow(10.0, r.real(-3, 3));
     // ---- storage variant ----
@@ -146,7 +148,7 @@ WorldSpec gen_world(const std::string& prop, uint64_t run_seed, const GenOpts& o
     // ---- B ----
     if (family_has_B(w.family))
     {
-        double kmax = o.thorough ? 6 : 4;
+        double kmax = 4;
         if (w.family == F_GREGINV) kmax = 2;  // SparseRegularInverse (CG) itself fails on ill-conditioned B
         w.kappaB = std::pow(10.0, r.real(0, kmax));
     }
